@@ -18,7 +18,10 @@ BOUNDS = {
     'quick': 'client programs: (A) banner EHLO MAIL RCPTxn DATA content QUIT, '
              '(B) ... RCPT RSET MAIL RCPT DATA empty-content QUIT, (D) ... RCPT '
              'DATA(refused) MAIL RCPT DATA content QUIT without RSET, (C) custom '
-             'command + NOOP + MAIL + RSET + QUIT; n<=2 recipients (LMTP also '
+             'command + NOOP + MAIL + RSET + QUIT, (E) pipelined MAIL RCPT '
+             'RCPT RSET where any ONE of the four replies is a malformed '
+             'single line (code 6xx..9xx: BadReply) and the caller goes on '
+             'with QUIT; n<=2 recipients (LMTP also '
              'the same address twice); SMTP and '
              'LMTP; PIPELINING advertised or not; any ONE reply of the script '
              'is symbolic (3-digit code, first digit 2..5, 1..3 lines of one '
@@ -62,6 +65,13 @@ def cells(tier):
     # more commands in flight than any fixed-size buffer would hold
     out.append({'prog': 'A', 'lmtp': 0, 'pipe': 1, 'n': 102, 'c': 0,
                 'chars': 1, 'nsym': 1})
+    for lmtp in (0, 1):
+        # program E: one MALFORMED reply (code outside 1xx..5xx) among the
+        # pipelined MAIL RCPT RCPT RSET replies raises BadReply; the caller
+        # goes on with QUIT and every later reply must still reach the
+        # object of its own command
+        out.append({'prog': 'E', 'lmtp': lmtp, 'pipe': 1, 'n': 2, 'c': 1,
+                    'chars': 1, 'nsym': 1})
     for pipe in (0, 1):
         # the same address given to RCPT twice (LMTP owes one end-of-data
         # reply per accepted RCPT command, not per distinct address)
@@ -170,6 +180,9 @@ def run(cell):
     nsym = cell.get('nsym', 2)
     sym_at = set()
     lo = 0
+    if cell['prog'] == 'E':
+        sym_at.add(2 + api.choice('bad_at', 4))
+        nsym = 0
     for j in range(nsym):
         k = lo + api.choice('sym_at%d' % j, 12 - lo)
         sym_at.add(k)
@@ -183,8 +196,11 @@ def run(cell):
         if i in sym_at:
             code = api.sstr('c%d_0' % i, 1, 0x32, 0x35) + \
                 api.sstr('c%d_12' % i, 2, 0x30, 0x39)
-            nlines = 1 if kind in ('EHLO', 'LHLO') else \
-                1 + api.choice('nl%d' % i, 3)
+            if cell['prog'] == 'E':
+                code = api.sstr('c%d_0' % i, 1, 0x36, 0x39) + \
+                    api.sstr('c%d_12' % i, 2, 0x30, 0x39)
+            nlines = 1 if kind in ('EHLO', 'LHLO') or cell['prog'] == 'E' \
+                else 1 + api.choice('nl%d' % i, 3)
             lines = [api.sstr('t%d_%d' % (i, j), nch, 0x21, 0x7e)
                      for j in range(nlines)]
         else:
@@ -220,6 +236,9 @@ def run(cell):
         got.append(('banner', client.get_banner(), 'noesc'))
         hello = client.lhlo if lmtp else client.ehlo
         got.append(('LHLO' if lmtp else 'EHLO', hello('me'), 'ehlo'))
+        if cell['prog'] == 'E':
+            _prog_e(client, srv, sym_at, rcpts, info)
+            return
         if cell['prog'] == 'C':
             got.append(('XCUSTOM', client.custom_command(b'XCUSTOM', b'arg'),
                         ''))
@@ -315,6 +334,43 @@ def run(cell):
         api.prove([a for a, _ in lm_pairs] == want,
                   'lmtp-data-replies-paired-with-wrong-recipients',
                   got=[a for a, _ in lm_pairs], want=want, **info)
+
+
+def _prog_e(client, srv, sym_at, rcpts, info):
+    from slimta.smtp import BadReply
+    bad = list(sym_at)[0]
+    objs = {2: client.mailfrom('s@z'), 3: client.rcptto(rcpts[0]),
+            4: client.rcptto(rcpts[1])}
+    raised = 0
+    try:
+        objs[5] = client.rset()
+    except BadReply:
+        raised += 1
+    try:
+        objs[6] = client.quit()
+    except BadReply:
+        raised += 1
+    script = srv.script
+    api.observe('kinds', [k for k, _, _ in script])
+    api.prove(raised == 1, 'malformed-reply-not-reported-once', bad=bad,
+              raised=raised, **info)
+    if not api.prove(len(script) == 7, 'reply-count-mismatch',
+                     script=[k for k, _, _ in script], **info):
+        return
+    for i in sorted(objs):
+        if i == bad:
+            continue
+        rep = objs[i]
+        kind, code, lines = script[i]
+        rinfo = dict(index=i, kind=kind, bad=bad, **info)
+        if not api.prove(rep.code is not None, 'reply-never-filled',
+                         **rinfo):
+            continue
+        api.prove(rep.code == code, 'reply-code-mismatch', **rinfo)
+        api.prove(rep.message.endswith(lines[-1]), 'reply-text-mismatch',
+                  **rinfo)
+    api.prove(len(srv.out) == 0 and len(client.io.recv_buffer) == 0,
+              'replies-left-unread', bad=bad, **info)
 
 
 def classify(cell, inputs, failure):
